@@ -288,8 +288,11 @@ def known_signature(k, engine, case, mo, spec, im):
     return bgprx_common.known_signature(k, engine, case, mo, spec, im) or _bstream_signature(k, engine, case, mo, spec, im)
 
 
-TRUSTED_BASE = TRUSTED_BASE + [bgprx_common.BGPRX_TRUSTED]
-ASSUMPTIONS = ASSUMPTIONS + bgprx_common.BGPRX_ASSUMPTIONS
+# the MRT reader: hostile files (cut, damaged headers, broken compression, random octets) through the real mrt-file-in unit
+from props import mrtrx_common
+ENGINES.append(mrtrx_common.engine())
+TRUSTED_BASE = TRUSTED_BASE + [bgprx_common.BGPRX_TRUSTED, mrtrx_common.MRTRX_TRUSTED]
+ASSUMPTIONS = ASSUMPTIONS + bgprx_common.BGPRX_ASSUMPTIONS + mrtrx_common.MRTRX_ASSUMPTIONS
 LEVEL_TEXT = ("Theorems over ALL scripts of read events and every parser, for the model of the BMP connection handler (framing, is_fatal table, read loop, "
               "message dispatch): no panic site is reachable in the repaired code; the read loop terminates on every script (end of file ends the session "
               "instead of being re-read); every connection ends in the post-loop cleanup; it ends only for end of file, unit shutdown, a fatal error kind or "
